@@ -188,7 +188,7 @@ def deps_of(vfile):
             continue
         for m in pat.finditer(src):
             todo.append('%s/%s.v' % (m.group(1), m.group(2)))
-        for m in re.finditer(r'From\s+CF\s+Require\s+(?:Import\s+|Export\s+)?([^.]*(?:\.[A-Za-z0-9_]+)*)\s*\.', src):
+        for m in re.finditer(r'From\s+CF\s+Require\s+(?:Import\s+|Export\s+)?((?:[A-Za-z0-9_]+(?:\.[A-Za-z0-9_]+)*\s*)+)\.(?=\s|$)', src):
             for tok in m.group(1).split():
                 parts = tok.split('.')
                 if len(parts) == 2:
@@ -205,7 +205,7 @@ def direct_deps(vfile):
         return out
     for m in re.finditer(r'\bCF\.([A-Za-z0-9_]+)\.([A-Za-z0-9_]+)', src):
         out.append('%s/%s.v' % (m.group(1), m.group(2)))
-    for m in re.finditer(r'From\s+CF\s+Require\s+(?:Import\s+|Export\s+)?([^.]*(?:\.[A-Za-z0-9_]+)*)\s*\.', src):
+    for m in re.finditer(r'From\s+CF\s+Require\s+(?:Import\s+|Export\s+)?((?:[A-Za-z0-9_]+(?:\.[A-Za-z0-9_]+)*\s*)+)\.(?=\s|$)', src):
         for tok in m.group(1).split():
             parts = tok.split('.')
             if len(parts) == 2:
